@@ -1,6 +1,7 @@
 package props
 
 import (
+	"verif/gen"
 	"verif/model"
 	"verif/probe"
 	"verif/ref"
@@ -121,28 +122,40 @@ func idSweep(full bool, f func(m model.Message) bool) {
 		}
 	}
 	// 8-bit identifier fields
-	for v := 0; v < 256; v++ {
-		b := uint8(v)
-		ps := []model.Payload{
-			{Kind: model.KIDi, ID: &model.ID{Type: b, Data: model.Bytes("Host.Example.ORG")}},
-			{Kind: model.KIDr, ID: &model.ID{Type: b, Data: model.Bytes("user@Example.ORG")}},
-			{Kind: model.KCERT, Cert: &model.Cert{Encoding: b, Data: model.Bytes("-----BEGIN CERTIFICATE-----\nTUlJ\n-----END CERTIFICATE-----\n")}},
-			{Kind: model.KCERTREQ, Cert: &model.Cert{Encoding: b, Data: pat(20, 1)}},
-			{Kind: model.KAUTH, Auth: &model.Auth{Method: b, Data: pat(20, 2)}},
-			{Kind: model.KNotify, Notify: &model.Notify{Protocol: b, Type: 16384, Data: pat(2, 1)}},
-			{Kind: model.KDelete, Delete: &model.Delete{Protocol: b, SPISize: 4, Count: 1, SPIs: []uint32{0xdeadbeef}}},
-			{Kind: model.KDelete, Delete: &model.Delete{Protocol: b}},
-			{Kind: model.KCP, CP: &model.CP{Type: b, Attrs: []model.CPAttr{{Type: 1, Value: pat(4, 1)}}}},
-			{Kind: model.KSA, SA: &model.SA{Proposals: []model.Proposal{{Number: b, Protocol: uint8(255 - v), SPI: pat(v%9, 1), Transforms: []model.Transform{{Type: 1, ID: 12, Attr: &model.Attr{TV: true, Type: 14, Value: 256}}}}}}},
-			{Kind: model.KTSi, TS: &model.TS{Selectors: []model.Selector{{Type: 7, Protocol: b, StartPort: 0, EndPort: 65535, StartAddr: pat(4, b), EndAddr: pat(4, b+1)}}}},
-			{Kind: model.KEAP, EAP: &model.EAP{Code: 1 + b%2, Identifier: b, Kind: model.EAka, Sub: b, Attrs: []model.AkaAttr{{Type: model.AT_KDF, Value: model.Bytes{0, 1}}}}},
-			{Kind: model.KEAP, EAP: &model.EAP{Code: 1, Identifier: b, Kind: model.EExpanded, VendorID: 10415, VendorType: uint32(v), Data: pat(3, b)}},
+	if !idSweep8(f) {
+		return
+	}
+	// key exchange values with the sizes and formats that go with the registered groups
+	for i, sh := range gen.KEShapes() {
+		if !emit(i, model.Payload{Kind: model.KKE, KE: &model.KE{Group: sh.Group, Data: sh.Data}}) {
+			return
 		}
-		for i, p := range ps {
-			m := model.Message{Header: h, Payloads: []model.Payload{p}}
-			m.Header.Exchange, m.Header.Flags = b, uint8(v*7)
-			if i%2 == 1 {
-				m.Header = h
+	}
+	// certificate data that begins like a DER SEQUENCE whose declared length is the rest, less than the rest, more than the rest
+	for i, d := range derShapes() {
+		for _, enc := range []uint8{4, 1, 7, 12} {
+			if !emit(i, model.Payload{Kind: model.KCERT, Cert: &model.Cert{Encoding: enc, Data: d}}) {
+				return
+			}
+		}
+		if !emit(i, model.Payload{Kind: model.KCERTREQ, Cert: &model.Cert{Encoding: 4, Data: d}}) {
+			return
+		}
+	}
+	// messages longer than 64 KiB and longer than 1 MiB: many payloads of nearly the largest size (the length field of the
+	// header has 32 bits; only each payload is limited to 65535 octets)
+	for _, k := range []int{2, 17, 18, 21} {
+		for _, size := range []int{60000, 65531} {
+			m := model.Message{Header: h}
+			for i := 0; i < k; i++ {
+				switch i % 3 {
+				case 0:
+					m.Payloads = append(m.Payloads, model.Payload{Kind: model.KVendor, Data: pat(size, byte(i))})
+				case 1:
+					m.Payloads = append(m.Payloads, model.Payload{Kind: model.KNotify, Notify: &model.Notify{Protocol: 1, Type: 16384, SPI: pat(4, 1), Data: pat(size-8, byte(i))}})
+				default:
+					m.Payloads = append(m.Payloads, model.Payload{Kind: model.KKE, KE: &model.KE{Group: 14, Data: pat(size-4, byte(i))}})
+				}
 			}
 			if !f(m) {
 				return
@@ -185,4 +198,60 @@ func runIDSweep(c *probe.Ctx, eval func(m model.Message) bool) {
 		c.Exhaustive("id-sweep")
 	}
 	c.Note("identifier sweep: %d messages", n)
+}
+
+func derShapes() []model.Bytes {
+	var out []model.Bytes
+	for _, n := range []int{0, 1, 5, 127, 128, 200, 255, 256, 300, 700} {
+		for _, delta := range []int{0, -1, -3, 1, 40, 4000} {
+			decl := n + delta
+			if decl < 0 {
+				continue
+			}
+			body := pat(n, byte(n))
+			out = append(out, append(model.Bytes{0x30, 0x82, byte(decl >> 8), byte(decl)}, body...))
+			if decl < 256 {
+				out = append(out, append(model.Bytes{0x30, 0x81, byte(decl)}, body...))
+			}
+			if decl < 128 {
+				out = append(out, append(model.Bytes{0x30, byte(decl)}, body...))
+			}
+		}
+	}
+	return out
+}
+
+// idSweep8: every value of every 8-bit identifier field (ID type, certificate encoding, authentication method, protocol ids,
+// configuration type, proposal number, selector protocol, EAP subtype, exchange type).
+func idSweep8(f func(m model.Message) bool) bool {
+	h := idSweepHeader()
+	for v := 0; v < 256; v++ {
+		b := uint8(v)
+		ps := []model.Payload{
+			{Kind: model.KIDi, ID: &model.ID{Type: b, Data: model.Bytes("Host.Example.ORG")}},
+			{Kind: model.KIDr, ID: &model.ID{Type: b, Data: model.Bytes("user@Example.ORG")}},
+			{Kind: model.KCERT, Cert: &model.Cert{Encoding: b, Data: model.Bytes("-----BEGIN CERTIFICATE-----\nTUlJ\n-----END CERTIFICATE-----\n")}},
+			{Kind: model.KCERTREQ, Cert: &model.Cert{Encoding: b, Data: pat(20, 1)}},
+			{Kind: model.KAUTH, Auth: &model.Auth{Method: b, Data: pat(20, 2)}},
+			{Kind: model.KNotify, Notify: &model.Notify{Protocol: b, Type: 16384, Data: pat(2, 1)}},
+			{Kind: model.KDelete, Delete: &model.Delete{Protocol: b, SPISize: 4, Count: 1, SPIs: []uint32{0xdeadbeef}}},
+			{Kind: model.KDelete, Delete: &model.Delete{Protocol: b}},
+			{Kind: model.KCP, CP: &model.CP{Type: b, Attrs: []model.CPAttr{{Type: 1, Value: pat(4, 1)}}}},
+			{Kind: model.KSA, SA: &model.SA{Proposals: []model.Proposal{{Number: b, Protocol: uint8(255 - v), SPI: pat(v%9, 1), Transforms: []model.Transform{{Type: 1, ID: 12, Attr: &model.Attr{TV: true, Type: 14, Value: 256}}}}}}},
+			{Kind: model.KTSi, TS: &model.TS{Selectors: []model.Selector{{Type: 7, Protocol: b, StartPort: 0, EndPort: 65535, StartAddr: pat(4, b), EndAddr: pat(4, b+1)}}}},
+			{Kind: model.KEAP, EAP: &model.EAP{Code: 1 + b%2, Identifier: b, Kind: model.EAka, Sub: b, Attrs: []model.AkaAttr{{Type: model.AT_KDF, Value: model.Bytes{0, 1}}}}},
+			{Kind: model.KEAP, EAP: &model.EAP{Code: 1, Identifier: b, Kind: model.EExpanded, VendorID: 10415, VendorType: uint32(v), Data: pat(3, b)}},
+		}
+		for i, p := range ps {
+			m := model.Message{Header: h, Payloads: []model.Payload{p}}
+			m.Header.Exchange, m.Header.Flags = b, uint8(v*7)
+			if i%2 == 1 {
+				m.Header = h
+			}
+			if !f(m) {
+				return false
+			}
+		}
+	}
+	return true
 }
